@@ -452,6 +452,14 @@ def dispatch(E, c, args):
             return ok(v.fields[0]) if v.variant == "Some" else err(args[1])
         if meth == "ok_or_else":
             return ok(v.fields[0]) if v.variant == "Some" else err(E.call_value(args[1], []))
+        if meth == "transpose" and isopt:
+            # Option<Result<T, E>> -> Result<Option<T>, E>
+            if v.variant == "None":
+                return ok(NONE())
+            inner = E.force_arg(v.fields[0])
+            if not isinstance(inner, VEnum):
+                return NotImplemented
+            return ok(some(inner.fields[0])) if inner.variant == "Ok" else err(inner.fields[0])
         if meth == "ok":
             return some(v.fields[0]) if v.variant == "Ok" else NONE()
         if meth == "err":
